@@ -9,6 +9,15 @@ claimed={
 "C19":dict(engine=E1+" + "+E2, tech=T_E1+"; "+T_E2,
   text="Timers: all call sequences up to length 4 (quick) / 5 (thorough, each also under every schedule with <=1 preemption) over {advance 1, advance 2, Refresh, Stop, ClearTimeout} after SetTimeout/SetInterval, and all singles/pairs of concurrent Stop/Refresh/Clear issued before the due instant, at it and at a later tick, under every interleaving with the timer goroutine up to 2-3 (quick) / 3-5 (thorough) preemptions; oracle = reference timer with co-instant events linearised in any order: callback instants exact, operations return, no callback after the final cancel, no timer goroutine left after 5 more periods.",
   note="Virtual clock (synctest) and scheduler own all nondeterminism of utils/timer.go; Go runtime timer semantics (go1.26.8, synchronous timer channels) are the real ones. Refresh after cancellation is excluded as unspecified."),
+"C03":dict(engine=E1, tech=T_E1+" with dynamic partial-order reduction",
+  text="Lifecycle: one real session per execution on polling (poll pending / not), polling v3 (thorough) and websocket; action sets = every close cause singly and in pairs (thorough: triples) plus neutral traffic (Send, client message, poll), also with a protocol-conformant client actor that keeps polling and answers pings; all actions started concurrently and every interleaving explored up to 2 preemptions for singles/pairs (1 for triples/actor; thorough 3/2), <=4 (6) context switches off the default schedule, with DPOR; sequential epilogue (Send, POST, poll begun after the close) and run to t=110s virtual. Oracle: ready states non-decreasing at every event and at the end, session handed over open, exactly one close event, its reason the documented reason of an injected cause (combinations included), no event after close except same-instant continuations of actions begun before it, responsive client never closed without a cause.",
+  note="Close reasons of cause combinations (overlapping requests, application close during a data request, write to a connection the peer already closed) are accepted as transport error, as upstream Engine.IO reports them. WebTransport sessions are covered under C08/C12."),
+"C04":dict(engine=E1, tech=T_E1+" with dynamic partial-order reduction",
+  text="Registry: the same executions as C03; at every quiescent point of every explored execution (no thread enabled, clock about to advance) the client table, ClientsCount() and the set of sessions that are not closed must coincide, keys equal session ids, ids are URL-safe; after the close a POST and a GET naming the closed id must be answered 400 code 1.",
+  note="Sessions dying while their handshake is still being completed are explored in the handshake-race units; id uniqueness over a run is checked on all ids seen."),
+"C11":dict(engine=E1, tech=T_E1+" with dynamic partial-order reduction",
+  text="Polling discipline: the C03 executions on polling plus slow-upload scenarios (a data request whose body is still being uploaded when a second one arrives); per request: handler returned (a request left blocked after the session closed is a violation), at most one WriteHeader, a response written unless the peer aborted, second poll while one is outstanding refused with 400, data request during another one's upload refused with 400 and session closed with transport error, ok only after the payload's message events in histories where the session stays open.",
+  note="Overlap is asserted only where it is certain from the construction of the scenario (a poll held by the set-up; an upload held open on the virtual clock), never from submission order."),
 "C06":dict(engine=E2, tech=T_E2,
   text="Handshake: product of ping interval x ping timeout x max payload x 7 transport sets x allowUpgrades x allowEIO3 x initial packet {none,text,binary} x cookie, each server taking three consecutive handshakes over the admitted carriers (polling xhr/b64/jsonp, websocket) and revisions; oracle from the statement: one connection event and registry entry per handshake, open packet first with sid/intervals/maxPayload/upgrades-as-a-set, initial packet as first message of every session, Protocol()/payload format by revision, decoded with an independent codec.",
   note="WebTransport handshakes are exercised under C08/C09 scenarios, not here; option values outside the listed alphabets are not covered."),
